@@ -1156,8 +1156,9 @@ rrul_fill_yly(echs_instant_t *restrict tgt, size_t nti, rrulsp_t rr)
 		/* now check the bitset */
 		for (int iy = -2; iy <= 2; iy++) {
 			if (UNLIKELY(y + iy >= 2100U)) {
-				/* shifted beyond the years we can handle */
-				goto fin;
+				/* shifted beyond the years we can handle,
+				 * later periods may still have dates before that */
+				break;
 			}
 			for (bitint_iter_t all = 0UL;
 			     res < nti && (yd = bi383_next(&all, &cand[YSET(iy)]), all);) {
@@ -1358,8 +1359,9 @@ rrul_fill_mly(echs_instant_t *restrict tgt, size_t nti, rrulsp_t rr)
 		/* now check the bitset */
 		for (int iy = -2; iy <= 2; iy++) {
 			if (UNLIKELY(y + iy >= 2100U)) {
-				/* shifted beyond the years we can handle */
-				goto fin;
+				/* shifted beyond the years we can handle,
+				 * later periods may still have dates before that */
+				break;
 			}
 			for (bitint_iter_t all = 0UL;
 			     res < nti && (yd = bi383_next(&all, &cand[YSET(iy)]), all);) {
